@@ -84,6 +84,14 @@ CHECKS = [
              'uniform-size / hand-drawn intra-sector slicings of contracted and output labels equals ncon and the dense einsum exactly.',
      'note': 'trusted: integer exactness; to_numpy as observer; random paths are restricted to connected pairs (outer-product-first paths '
              'cannot be expressed through ncon labels); one open known finding (empty constant sub-network)'},
+    {'id': 'C16',
+     'technique': 'Hypothesis-generated interleaved histories of twin programs with cache operations; differential run against undecorated functions plus a per-call audit wrapper (recomputation and insertion digests)',
+     'text': 'The same operation sequence is re-created block by block under 2-3 symmetry groups / fermionic flags (identical struct and slices) '
+             'and interleaved step by step with clear_cache() and set_cache_maxsize(0/1/2/1024); every outcome equals the run in which every '
+             'memoised function (found by scanning yastn.* for cache_info/__wrapped__, all aliases re-bound) is replaced by its undecorated '
+             'version; every call of a memoised function is compared with a fresh recomputation and with the digest recorded at first '
+             'insertion; a second interleaving gives identical per-program results.',
+     'note': 'trusted: to_dict(level=2) as the bit-level observer; Python == / hash semantics of lru_cache keys (0.0 == -0.0 == 0); cache statistics are not asserted'},
     {'id': 'C19',
      'technique': 'exhaustive enumeration of the group law against an independent table + Hypothesis search over Leg arguments',
      'text': 'Every fuse()/add_charges() row in the stated charge box (complete for Z2/Z3 factors, |t|<=B for U(1)) for '
